@@ -932,7 +932,7 @@ func c10CommaOkBlocks(c *Ctx) {
 				}
 			}
 			uses(ex, okKey)
-			if nUse == 0 {
+			if nUse == 0 && len(bad) == 0 {
 				return
 			}
 			n++
